@@ -102,6 +102,13 @@ func ExecuteFree(sc *Scenario, tape *Tape) string {
 				return out
 			}
 		}
+		if plan.SkipErrorCalls && i < len(sc.Attempts)-1 {
+			// Error() is optional: a caller that goes straight to the next Stream call
+			// leaves no happens-before edge between this attempt's reader and the next
+			out += fmt.Sprintf("attempt %d: %v stream=%v (Error() not called); ", i, plan.Stop, serr != nil)
+			cancel()
+			continue
+		}
 		edone := make(chan error, 1)
 		go func() { edone <- r.streamer.Error() }()
 		select {
